@@ -337,7 +337,115 @@ def process_zone(zone):
             time.tzset()
 
 
+class _LiveHandle(object):
+    """A value that holds a live resource (a lock guarding its rows): it cannot be copied."""
+
+    def __init__(self, rows):
+        import threading
+        self.rows = rows
+        self.guard = threading.Lock()
+
+
+class _RefusesCopy(object):
+    def __init__(self, rows):
+        self.rows = rows
+
+    def __deepcopy__(self, memo):
+        raise RuntimeError('this object must not be copied')
+
+
+def operations_with_values_that_cannot_be_copied(ctx):
+    """Operation classes with and without copy-on-interception whose run RETURNS normally while handling values that cannot be copied
+    (a handle holding a lock, an object refusing copies, a generator): as the result, as an argument of an output, as the value of an
+    input. Judged: whatever is saved for such a run says 'not incomplete', 'no exception', and a non-negative duration. The cassette
+    is a user-written one that keeps recording objects as they are, and the in-memory one (runs it does not save are only counted)."""
+    from playback.recordings.memory.memory_recording import MemoryRecording
+    from playback.tape_cassette import TapeCassette
+    from playback.tape_cassettes.in_memory.in_memory_tape_cassette import InMemoryTapeCassette
+    from playback.tape_recorder import TapeRecorder, RecordingParameters
+
+    class KeepObjects(TapeCassette):
+        def __init__(self):
+            self.saved, self.order = {}, []
+
+        def get_recording(self, recording_id):
+            return self.saved[recording_id]
+
+        def create_new_recording(self, category):
+            return MemoryRecording(u'%s/%d' % (category, len(self.order) + 1))
+
+        def _save_recording(self, recording):
+            self.saved[recording.id] = recording
+            self.order.append(recording.id)
+
+        def iter_recording_ids(self, category, start_date=None, end_date=None, metadata=None, limit=None, random_results=False):
+            return iter([i for i in self.order if i.split('/')[0] == category])
+
+        def extract_recording_category(self, recording_id):
+            return recording_id.split('/')[0]
+
+    makers = {'lock_holder': lambda: _LiveHandle([0, 1, 2]), 'refuses_copy': lambda: _RefusesCopy([1]), 'generator': lambda: (x for x in [1, 2]),
+              'plain': lambda: {'rows': [1, 2]}}
+    for cname in ('keep_objects', 'in_memory'):
+        for copy_flag in (True, False, None):
+            for vname in sorted(makers):
+                for where in ('result', 'output_argument', 'input_value', 'raised_after_output'):
+                    cassette = KeepObjects() if cname == 'keep_objects' else InMemoryTapeCassette()
+                    from vlib.spies import SpyCassette
+                    spy = SpyCassette(cassette)
+                    rec = TapeRecorder(spy)
+                    rec.enable_recording()
+                    make = makers[vname]
+
+                    class Service(object):
+                        @rec.intercept_input('cp.load')
+                        def load(self):
+                            return make() if where == 'input_value' else [1]
+
+                        @rec.intercept_output('cp.send')
+                        def send(self, x):
+                            return 'sent'
+
+                        @rec.operation()
+                        def execute(self):
+                            v = self.load()
+                            self.send(make() if where in ('output_argument', 'raised_after_output') else 'x')
+                            if where == 'raised_after_output':
+                                raise KeyError('ordinary failure')
+                            return make() if where == 'result' else 'done'
+                    if copy_flag is not None:
+                        Service = rec.recording_params(RecordingParameters(copy_data_on_intercepion=copy_flag))(Service)
+                    w = {'uncopyable_values': True, 'cassette': cname, 'copy_on_interception': copy_flag, 'value': vname, 'where': where}
+                    ctx.case(w, nontrivial=True)
+                    try:
+                        Service().execute()
+                        raised = False
+                    except KeyError:
+                        raised = True
+                    if raised != (where == 'raised_after_output'):
+                        ctx.count('uncopyable_value_runs_whose_outcome_changed')       # (transparency is C04's subject)
+                        continue
+                    saves = [e for e in spy.log if e[0] == 'save']
+                    if len(saves) != 1 or any(e[0] == 'save_failed' for e in spy.log):
+                        ctx.count('uncopyable_value_runs_not_saved')
+                        continue
+                    md = saves[0][4] or {}
+                    ctx.count('metadata_checked')
+                    ctx.count('uncopyable_value_runs_judged')
+                    if md.get(TapeRecorder.INCOMPLETE_RECORDING) is not False:
+                        ctx.violation('operation %s but its recording is flagged incomplete (%r)' % ('raised an ordinary exception' if raised else 'returned',
+                                                                                                   md.get(TapeRecorder.INCOMPLETE_RECORDING)), w)
+                    if md.get(TapeRecorder.EXCEPTION_IN_OPERATION) is not raised:
+                        ctx.violation('exception flag of a run that was not cut short is %r, the operation %s' % (
+                            md.get(TapeRecorder.EXCEPTION_IN_OPERATION), 'raised' if raised else 'returned'), w)
+                    dur = md.get(TapeRecorder.DURATION)
+                    if not isinstance(dur, (int, float)) or dur < 0:
+                        ctx.violation('duration of a finished run is %r' % (dur,), w)
+
+
 def run(ctx):
+    if ctx.shard == 0:
+        operations_with_values_that_cannot_be_copied(ctx)
     n = 9 if ctx.quick else 160
     base = (ctx.seed + 1) * 104729
     rng = ctx.rng
@@ -362,6 +470,8 @@ def run(ctx):
 
 
 def replay(ctx, w):
+    if w.get('uncopyable_values'):
+        return operations_with_values_that_cannot_be_copied(ctx)
     prog = gen_c18_program(w['gen_seed'])
     if w.get('cassette') == 's3' and not any(st['op'] == 'record_data' for st in prog['body']):
         prog['body'].insert(0, {'op': 'record_data', 'key': '_metadata', 'value': {'lit': {'user': 'blob'}}})
